@@ -101,6 +101,7 @@ fn unary_src(s: &S) -> String {
          up: std.asciiUpper(s), low: std.asciiLower(s), map: std.map(function(c) c + \"x\", s), flat: std.flatMap(function(c) c + c, s), \
          mwi: std.mapWithIndex(function(i, c) [i, c], s), rep: [std.repeat(s, n) for n in [0, 1, 2]], join: std.join(s, [\"p\", \"q\", \"r\"]), \
          w: [\"%5s|\" % s, \"%-5s|\" % s, \"%2s|\" % s, \"%0s|\" % s, \"%*s|\" % [4, s]], \
+         wm: [\"%(k)5s|\" % {{k: s}}, \"%(k)-5s|\" % {{k: s}}, \"%(k)2s|\" % {{k: s}}, std.format(\"%(k)4s|\", {{k: s}})], \
          trim: std.trim(\" \" + s + \"\\t \"), cat: std.length(s + s), cmp: [s < s + \"a\", s == s, s + \"b\" > s + \"a\"], \
          cp: [std.codepoint(c) for c in std.stringChars(s)], back: std.join(\"\", [std.char(std.codepoint(c)) for c in std.stringChars(s)]) }}"
     )
@@ -145,6 +146,7 @@ fn unary_model(s: &S) -> J {
         "rep": [js(&vec![]), js(s), js(&[s.clone(), s.clone()].concat())],
         "join": js(&joined),
         "w": [w(pad(s, 5, false)), w(pad(s, 5, true)), w(pad(s, 2, false)), w(s.clone()), w(pad(s, 4, false))],
+        "wm": [w(pad(s, 5, false)), w(pad(s, 5, true)), w(pad(s, 2, false)), w(pad(s, 4, false))],
         "trim": js(s),
         "cat": s.len() * 2,
         "cmp": [true, true, true],
@@ -210,7 +212,7 @@ fn compare<'p>(p: &mut Program<'p>, src: &str, model: &J, rep: &mut Report, case
                 rep.outcome(if model.get("find").is_some() { "binary-functions" } else { "unary-functions" });
                 if let Some(d) = diff(model, &got, "") {
                     let field = d.split(':').next().unwrap_or("").trim_start_matches('.').split(['.', '[']).next().unwrap_or("").to_string();
-                    let sig = if field == "w" { "C18/format-width-counts-bytes".to_string() } else { format!("C18/{field}") };
+                    let sig = if field == "w" || field == "wm" { "C18/format-width-counts-bytes".to_string() } else { format!("C18/{field}") };
                     rep.violation(sig, format!("{what}: {d}"), case);
                 }
             }
